@@ -18,7 +18,7 @@ func Map(v reflect.Value, f jtypes.Callable) (interface{}, error) {
 
 	var results []interface{}
 
-	argc := clamp(f.ParamCount(), 1, 3)
+	argc := clamp(f.ParamCount(), 0, 3)
 
 	for i := 0; i < arrayLen(v); i++ {
 
@@ -49,7 +49,7 @@ func Filter(v reflect.Value, f jtypes.Callable) (interface{}, error) {
 
 	var results []interface{}
 
-	argc := clamp(f.ParamCount(), 1, 3)
+	argc := clamp(f.ParamCount(), 0, 3)
 
 	for i := 0; i < arrayLen(v); i++ {
 
